@@ -1,4 +1,4 @@
-"""unit height: update_height, poll_height, BlockWatcher::{new, new_block, current_height} (src/block_watcher.rs)."""
+"""unit height: poll_forever, update_height, poll_height, BlockWatcher::{new, new_block, current_height} (src/block_watcher.rs)."""
 from vlib.core import Src
 from units.lifecycle import common_head
 
@@ -14,14 +14,19 @@ def build(u):
     u.raw("pub mod messages {\nuse super::*;\n")
     u.item(m, "BlockAdded", "struct")
     u.raw("}\n")
-    u.raw("pub mod block_watcher {\nuse super::*;\nuse crate::anyhow::Result;\nuse crate::messages::BlockAdded;\n")
+    u.raw("pub mod block_watcher {\nuse super::*;\nuse crate::anyhow::Result;\nuse crate::messages::BlockAdded;\nuse crate::mpsc::Receiver;\n")
     u.spec("height.rs")
+    u.item(bw, "POLL_INTERVAL", "const")
     u.item(bw, "BlockWatcher", "struct")
     u.impl(bw, "BlockWatcher", ["new", "new_block"], "block_watcher")
     u.raw("impl BlockWatcher {\n")
     im = bw.find("BlockWatcher", "impl", trait="BlockProvider")
     u.fn(bw, bw.find_fn_in(im, "current_height"), "block_watcher::BlockWatcher::current_height")
     u.raw("}\n")
+    u.ghost_callees["c:tokio::time::sleep"] = "Tracked(p)"
+    u.free_fn(bw, "poll_forever", "block_watcher")
+    del u.ghost_callees["c:tokio::time::sleep"]
     u.free_fn(bw, "poll_height", "block_watcher")
     u.free_fn(bw, "update_height", "block_watcher")
+    u.auto_here(bw, "block_watcher")
     u.raw("}\n} // verus!\nfn main() {}\n")
